@@ -1,7 +1,10 @@
-(* Proofs about the suspendable clock model. *)
+(* Proofs about the suspendable clock model: accounting, and the simulation
+   between the model and the specification-side monitor (Spec.v), from
+   which [monitor_accepts_model_lemma] follows. *)
 From Coq Require Import Lia ZifyBool ZifyN ZifyNat.
 From VF Require Import Clock.Model Clock.Spec.
 Open Scope Z_scope.
+
 
 (* ---- accounting: the clock's fields against true unsuspended time ---------- *)
 
@@ -134,3 +137,426 @@ Proof.
   split; [exact H1|]. split; [exact H2|]. unfold total_now in H4.
   destruct (Nat.eqb (s_cnt s) 0); lia.
 Qed.
+
+(* ---- list plumbing ---------------------------------------------------------------- *)
+
+Lemma Forall2_nth {A B} (P : A -> B -> Prop) l1 l2 id x :
+  Forall2 P l1 l2 -> nth_error l1 id = Some x -> exists m, nth_error l2 id = Some m /\ P x m.
+Proof.
+  intros H. revert id. induction H as [|a b l1 l2 Hab H IH]; intros [|id] Hn; cbn in Hn; try discriminate.
+  - injection Hn as <-. exists b. split; [reflexivity|exact Hab].
+  - apply IH in Hn as (m & Hm & HP). exists m. split; [exact Hm|exact HP].
+Qed.
+
+Lemma Forall2_nth_none {A B} (P : A -> B -> Prop) l1 l2 id :
+  Forall2 P l1 l2 -> nth_error l1 id = None -> nth_error l2 id = None.
+Proof.
+  intros H. revert id. induction H as [|a b l1 l2 Hab H IH]; intros [|id] Hn; cbn in *; try discriminate; auto.
+Qed.
+
+Lemma Forall2_set_nth {A B} (P : A -> B -> Prop) l1 l2 id x m :
+  Forall2 P l1 l2 -> P x m -> Forall2 P (set_nth id x l1) (set_nth id m l2).
+Proof.
+  intros H Hx. revert id. induction H as [|a b l1 l2 Hab H IH]; intros [|id]; cbn [set_nth]; constructor; auto.
+Qed.
+
+Lemma Forall2_impl {A B} (P Q : A -> B -> Prop) l1 l2 :
+  (forall a b, P a b -> Q a b) -> Forall2 P l1 l2 -> Forall2 Q l1 l2.
+Proof. intros HPQ H. induction H; constructor; auto. Qed.
+
+(* ---- the simulation relation between model state and monitor state ------------------ *)
+
+Definition ctx_rel (c : cfg) (now uns : Z) (x : ctxo) (m : mctx) : Prop :=
+  x_initial x = m_U0 m /\ x_final x = m_U0 m + m_d m /\ x_basedl x = wall_bound c m /\
+  m_T0 m <= now /\
+  (x_berr x = ENone -> m_cancel m = false /\ m_expire m = false) /\
+  (x_berr x = ECanceled -> m_cancel m = true) /\
+  (x_berr x = EDeadline -> m_expire m = true) /\
+  (m_expire m = true -> wall_bound c m <= now) /\
+  (m_rearms m <> 0%nat -> (Z.of_nat (m_rearms m) - 1) * thr c <= now - m_T0 m - m_d m) /\
+  match x_phase x with
+  | PArming d' =>
+    m_parked m = true /\ m_done m = false /\
+    m_T0 m + m_d m + Z.of_nat (m_rearms m) * thr c <= now + d'
+  | PArmed dl =>
+    m_parked m = false /\ m_done m = false /\ x_berr x = ENone /\
+    m_T0 m + m_d m + Z.of_nat (m_rearms m) * thr c <= dl
+  | PDone =>
+    m_done m = true /\
+    (m_cancel m = true \/ m_d m - thr c < uns - m_U0 m \/ wall_bound c m <= now)
+  end.
+
+Definition R (c : cfg) (s : state) (mo : mon) : Prop :=
+  acct s (mo_tl mo) /\ Forall2 (ctx_rel c (s_now s) (tl_uns (mo_tl mo))) (s_ctxs s) (mo_ctxs mo).
+
+Lemma ctx_rel_mono c now now' uns uns' x m :
+  now <= now' -> uns <= uns' -> ctx_rel c now uns x m -> ctx_rel c now' uns' x m.
+Proof.
+  unfold ctx_rel. intros Hle Hle' (H1 & H2 & H3 & H4 & H5 & H6 & H7 & H8 & Hk & H9).
+  repeat (split; [first [assumption | lia | (intros He; specialize (H8 He); lia)
+                         | (intros He; specialize (Hk He); lia)]|]).
+  destruct (x_phase x).
+  - destruct H9 as (Ha & Hb & Hc). repeat split; auto. lia.
+  - exact H9.
+  - destruct H9 as (Ha & [Hb|[Hb|Hb]]); (split; [exact Ha|]).
+    + left. exact Hb.
+    + right. left. lia.
+    + right. right. lia.
+Qed.
+
+Lemma R_init c : R c init mon0.
+Proof. split; [exact acct_init|constructor]. Qed.
+
+(* total_at against the true unsuspended time *)
+Lemma total_at_bounds s t tf : acct s t -> tf <= s_now s ->
+  tl_uns t - (s_now s - tf) <= total_at s tf <= tl_uns t.
+Proof.
+  unfold acct, total_now, total_at. intros (H1 & H2 & H3 & H4) Hle.
+  destruct (Nat.eqb (s_cnt s) 0); cbn [andb]; [|lia].
+  destruct (s_ustart s <? tf) eqn:E; lia.
+Qed.
+
+(* ---- p_done / p_rearm / p_quiet are satisfied under the relation ------------------- *)
+
+Lemma p_done_base c t m e dur :
+  m_done m = false -> e <> ENone ->
+  (e = EDeadline -> wall_bound c m <= tl_now t) ->
+  (e = ECanceled -> m_cancel m = true) ->
+  dur = tl_uns t - m_U0 m -> p_done c t m None e dur = "".
+Proof.
+  intros Hd Hne He Hc Hdur. unfold p_done. rewrite Hd.
+  destruct e; [congruence| |].
+  - rewrite (Hc eq_refl). cbn [negb].
+    destruct (dur =? tl_uns t - m_U0 m) eqn:E; [reflexivity|lia].
+  - specialize (He eq_refl).
+    destruct ((m_d m - thr c <? tl_uns t - m_U0 m) || (wall_bound c m <=? tl_now t)) eqn:E1; [|lia].
+    cbn [negb]. destruct (dur =? tl_uns t - m_U0 m) eqn:E; [reflexivity|lia].
+Qed.
+
+Lemma p_done_timer c t m tf dur :
+  m_done m = false ->
+  tl_uns t - m_U0 m - (tl_now t - tf) <= dur -> dur <= tl_uns t - m_U0 m -> m_d m - thr c < dur ->
+  p_done c t m (Some tf) EDeadline dur = "".
+Proof.
+  intros Hd Hlo Hhi Hthr. unfold p_done. rewrite Hd.
+  destruct ((m_d m - thr c <? tl_uns t - m_U0 m) || (wall_bound c m <=? tl_now t)) eqn:E1; [|lia].
+  cbn [negb].
+  destruct ((tl_uns t - m_U0 m - (tl_now t - tf) <=? dur) && (dur <=? tl_uns t - m_U0 m) && (m_d m - thr c <? dur)) eqn:E2;
+    [reflexivity|lia].
+Qed.
+
+Lemma p_rearm_ok c t m tf d' :
+  m_done m = false -> thr c <= d' ->
+  m_d m - (tl_uns t - m_U0 m) <= d' -> d' <= m_d m - (tl_uns t - m_U0 m) + (tl_now t - tf) ->
+  Z.of_nat (m_rearms m) * thr c <= tl_now t - m_T0 m - m_d m ->
+  p_rearm c t m tf d' = "".
+Proof.
+  intros Hd H1 H2 H3 H4. unfold p_rearm. rewrite Hd.
+  destruct (d' <? thr c) eqn:E1; [lia|].
+  destruct ((m_d m - (tl_uns t - m_U0 m) <=? d') && (d' <=? m_d m - (tl_uns t - m_U0 m) + (tl_now t - tf))) eqn:E2; [|lia].
+  cbn [negb].
+  destruct (Z.of_nat (m_rearms m) * thr c <=? tl_now t - m_T0 m - m_d m) eqn:E3; [reflexivity|lia].
+Qed.
+
+Definition step_good c s mo e :=
+  p_step c mo e (snd (step c s e)) = "" /\
+  R c (fst (step c s e)) (mon_step c mo e (snd (step c s e))).
+
+Lemma mon_step_target c mo e o id m :
+  target e = Some id -> nth_error (mo_ctxs mo) id = Some m ->
+  mon_step c mo e o =
+  mkMon (mo_tl mo) (set_nth id (note_out (note_event c (mo_tl mo) m e) o) (mo_ctxs mo)).
+Proof.
+  destruct e; cbn [target]; try discriminate; intros [= ->] Hm; unfold mon_step;
+    cbn [target tl_step]; rewrite Hm; destruct mo; reflexivity.
+Qed.
+
+Lemma mon_step_target_none c mo e o id :
+  target e = Some id -> nth_error (mo_ctxs mo) id = None -> mon_step c mo e o = mo.
+Proof.
+  destruct e; cbn [target]; try discriminate; intros [= ->] Hm; unfold mon_step;
+    cbn [target tl_step]; rewrite Hm; destruct mo; reflexivity.
+Qed.
+
+Lemma R_update c s mo id x' m' :
+  R c s mo -> ctx_rel c (s_now s) (tl_uns (mo_tl mo)) x' m' ->
+  R c (set_ctxs s (set_nth id x' (s_ctxs s))) (mkMon (mo_tl mo) (set_nth id m' (mo_ctxs mo))).
+Proof.
+  intros [Ha Hf] Hr. split.
+  - cbn [mo_tl]. eapply acct_clock_of; [|exact Ha]. reflexivity.
+  - cbn [set_ctxs s_now s_ctxs mo_ctxs mo_tl]. apply Forall2_set_nth; assumption.
+Qed.
+
+Lemma set_nth_same {A} (l : list A) id x : nth_error l id = Some x -> set_nth id x l = l.
+Proof.
+  revert id. induction l as [|a l IH]; intros [|id] H; cbn in *; try discriminate.
+  - now injection H as ->.
+  - now rewrite IH.
+Qed.
+
+Lemma R_update_mon c s mo id x m' :
+  R c s mo -> nth_error (s_ctxs s) id = Some x -> ctx_rel c (s_now s) (tl_uns (mo_tl mo)) x m' ->
+  R c s (mkMon (mo_tl mo) (set_nth id m' (mo_ctxs mo))).
+Proof.
+  intros [Ha Hf] Hx Hr. split; [exact Ha|]. cbn [mo_ctxs mo_tl].
+  rewrite <- (set_nth_same _ _ _ Hx). apply Forall2_set_nth; assumption.
+Qed.
+
+Ltac rel_cbn :=
+  cbn [note_out note_event with_phase with_berr x_initial x_final x_basedl x_berr x_phase
+       m_birth m_cancel m_expire m_parked m_done m_rearms].
+Ltac rel_fields :=
+  rel_cbn; unfold wall_bound, m_T0, m_U0, m_d in *; rel_cbn.
+
+Ltac disj := solve [lia | congruence | assumption | left; disj | right; disj].
+Ltac fin := repeat split; auto; try congruence; try lia; try disj.
+
+Lemma step_arm c s mo id : R c s mo -> step_good c s mo (Arm id).
+Proof.
+  intros HR. pose proof HR as [Ha Hf]. unfold step_good. cbn [step]. unfold do_arm.
+  destruct (nth_error (s_ctxs s) id) as [x|] eqn:Hx.
+  - destruct (Forall2_nth _ _ _ _ _ Hf Hx) as (m & Hm & Hr).
+    cbn [p_step target]. rewrite Hm.
+    rewrite (mon_step_target c mo (Arm id) _ id m eq_refl Hm).
+    destruct Hr as (H1 & H2 & H3 & H4 & H5 & H6 & H7 & H8 & Hrk & H9).
+    destruct Ha as (Ha1 & Ha2 & Ha3 & Ha4).
+    destruct (x_phase x) as [d'|dl|] eqn:Hp.
+    + destruct H9 as (Hpk & Hdn & Hk).
+      destruct (x_berr x) eqn:He.
+      * (* no stop requested: the timer is armed *)
+        destruct (H5 eq_refl) as [Hc Hxp]. cbn [fst snd]. split.
+        -- unfold p_quiet. rel_fields. rewrite Hdn, Hxp, Hc. reflexivity.
+        -- apply R_update; [exact HR|].
+           unfold ctx_rel. rel_fields. rewrite ?He, ?Hp. fin.
+      * (* cancelled while parked *)
+        unfold base_done. cbn [fst snd]. split.
+        -- apply p_done_base; rel_fields; fin.
+        -- apply R_update; [exact HR|].
+           unfold ctx_rel. rel_fields. rewrite ?He, ?Hp. fin.
+      * (* base context expired while parked *)
+        unfold base_done. cbn [fst snd]. split.
+        -- apply p_done_base; rel_fields; fin.
+        -- apply R_update; [exact HR|].
+           unfold ctx_rel. rel_fields. rewrite ?He, ?Hp. fin.
+    + destruct H9 as (Hpk & Hdn & He & Hk). destruct (H5 He) as [Hc Hxp]. cbn [fst snd]. split.
+      * unfold p_quiet. rel_fields. rewrite Hdn, Hxp, Hc. reflexivity.
+      * apply (R_update_mon _ _ _ _ x); [exact HR|exact Hx|].
+        unfold ctx_rel. rel_fields. rewrite ?He, ?Hp. fin.
+    + cbn [fst snd]. split.
+      * unfold p_quiet. rel_fields. rewrite (proj1 H9). reflexivity.
+      * apply (R_update_mon _ _ _ _ x); [exact HR|exact Hx|].
+        unfold ctx_rel. rel_fields. rewrite ?Hp. fin.
+  - pose proof (Forall2_nth_none _ _ _ _ Hf Hx) as Hm. cbn [p_step target fst snd]. rewrite Hm.
+    rewrite (mon_step_target_none c mo (Arm id) _ id eq_refl Hm). split; [reflexivity|exact HR].
+Qed.
+
+Lemma step_fire c s mo id tf : R c s mo -> step_good c s mo (Fire id tf).
+Proof.
+  intros HR. pose proof HR as [Ha Hf]. unfold step_good. cbn [step]. unfold do_fire.
+  destruct (nth_error (s_ctxs s) id) as [x|] eqn:Hx.
+  - destruct (Forall2_nth _ _ _ _ _ Hf Hx) as (m & Hm & Hr).
+    cbn [p_step target]. rewrite Hm.
+    rewrite (mon_step_target c mo (Fire id tf) _ id m eq_refl Hm).
+    destruct Hr as (H1 & H2 & H3 & H4 & H5 & H6 & H7 & H8 & Hrk & H9).
+    assert (Hquiet : p_quiet (note_event c (mo_tl mo) m (Fire id tf)) = "" /\
+                     R c s (mkMon (mo_tl mo) (set_nth id (note_out (note_event c (mo_tl mo) m (Fire id tf)) ONone) (mo_ctxs mo)))).
+    { split.
+      - unfold p_quiet. rel_fields. destruct (x_phase x) as [d'|dl|].
+        + destruct H9 as (-> & -> & _). reflexivity.
+        + destruct H9 as (Hpk & Hdn & He & _). destruct (H5 He) as [-> ->]. rewrite Hpk, Hdn. reflexivity.
+        + rewrite (proj1 H9). reflexivity.
+      - apply (R_update_mon _ _ _ _ x); [exact HR|exact Hx|]. rel_fields.
+        unfold ctx_rel. fin. }
+    destruct (x_phase x) as [d'|dl|] eqn:Hp; [exact Hquiet| |exact Hquiet].
+    destruct ((dl <=? tf) && (tf <=? s_now s)) eqn:Een; [|exact Hquiet].
+    clear Hquiet. destruct H9 as (Hpk & Hdn & He & Hk).
+    pose proof (total_at_bounds s (mo_tl mo) tf Ha ltac:(lia)) as Hb.
+    destruct Ha as (Ha1 & Ha2 & Ha3 & Ha4).
+    destruct (x_final x - total_at s tf <? thr c) eqn:Ethr; cbn [fst snd].
+    + split.
+      * apply p_done_timer; rel_fields; fin.
+      * apply R_update; [exact HR|]. unfold ctx_rel. rel_fields. rewrite ?He, ?Hp. fin.
+    + split.
+      * apply p_rearm_ok; rel_fields; fin.
+      * apply R_update; [exact HR|]. unfold ctx_rel. rel_fields. rewrite ?He, ?Hp. fin.
+  - pose proof (Forall2_nth_none _ _ _ _ Hf Hx) as Hm. cbn [p_step target fst snd]. rewrite Hm.
+    rewrite (mon_step_target_none c mo (Fire id tf) _ id eq_refl Hm). split; [reflexivity|exact HR].
+Qed.
+
+(* Cancel and BaseExpire share base_stop *)
+Lemma step_base_stop c s mo id x m e ev :
+  R c s mo -> nth_error (s_ctxs s) id = Some x -> nth_error (mo_ctxs mo) id = Some m ->
+  ctx_rel c (s_now s) (tl_uns (mo_tl mo)) x m ->
+  (ev = Cancel id /\ e = ECanceled \/ ev = BaseExpire id /\ e = EDeadline /\ x_basedl x <= s_now s) ->
+  let r := base_stop s id x e in
+  ((exists er dur, snd r = ODone er dur /\
+      p_done c (mo_tl mo) (note_event c (mo_tl mo) m ev) None er dur = "") \/
+   (snd r = ONone /\ p_quiet (note_event c (mo_tl mo) m ev) = "")) /\
+  R c (fst r) (mkMon (mo_tl mo) (set_nth id (note_out (note_event c (mo_tl mo) m ev) (snd r)) (mo_ctxs mo))).
+Proof.
+  intros HR Hx Hm Hr Hev. pose proof HR as [Ha Hf].
+  destruct Hr as (H1 & H2 & H3 & H4 & H5 & H6 & H7 & H8 & Hrk & H9).
+  destruct Ha as (Ha1 & Ha2 & Ha3 & Ha4).
+  unfold base_stop. cbn zeta.
+  assert (Hexp : ev = BaseExpire id -> (wall_bound c m <=? tl_now (mo_tl mo)) = true).
+  { intros ->. destruct Hev as [[Hev _]|(_ & _ & Hle)]; [discriminate|]. unfold wall_bound in *. lia. }
+  destruct (x_phase x) as [d'|dl|] eqn:Hp.
+  - (* parked: only the base context changes *)
+    destruct H9 as (Hpk & Hdn & Hk). cbn [fst snd]. split.
+    + right. split; [reflexivity|].
+      unfold p_quiet. destruct Hev as [[-> ->]|(-> & -> & Hle)]; rel_fields; rewrite Hdn, Hpk; reflexivity.
+    + apply R_update; [exact HR|]. unfold ctx_rel.
+      destruct Hev as [[-> ->]|(-> & -> & Hle)]; rel_fields; rewrite ?Hp.
+      * destruct (x_berr x) eqn:He; fin.
+      * specialize (Hexp eq_refl). rel_fields.
+        destruct (x_berr x) eqn:He; fin; rewrite ?Hexp, ?Bool.orb_true_r; fin.
+  - (* in the select: the goroutine finishes at once *)
+    destruct H9 as (Hpk & Hdn & He & Hk). destruct (H5 He) as [Hc Hxp].
+    unfold base_done. rewrite He. cbn [fst snd x_berr with_berr x_initial].
+    destruct Hev as [[-> ->]|(-> & -> & Hle)].
+    + split.
+      * left. eexists _, _. split; [reflexivity|]. apply p_done_base; rel_fields; fin.
+      * apply R_update; [exact HR|]. unfold ctx_rel. rel_fields. fin.
+    + specialize (Hexp eq_refl). split.
+      * left. eexists _, _. split; [reflexivity|]. apply p_done_base; rel_fields; fin.
+      * apply R_update; [exact HR|]. unfold ctx_rel. rel_fields. rewrite Hexp, Bool.orb_true_r. fin.
+  - cbn [fst snd]. split.
+    + right. split; [reflexivity|].
+      unfold p_quiet. destruct Hev as [[-> ->]|(-> & -> & Hle)]; rel_fields; rewrite (proj1 H9); reflexivity.
+    + apply R_update; [exact HR|]. unfold ctx_rel.
+      destruct Hev as [[-> ->]|(-> & -> & Hle)]; rel_fields; rewrite ?Hp.
+      * destruct (x_berr x) eqn:He; fin.
+      * specialize (Hexp eq_refl). rel_fields.
+        destruct (x_berr x) eqn:He; fin; rewrite ?Hexp, ?Bool.orb_true_r; fin.
+Qed.
+
+Lemma step_cancel c s mo id : R c s mo -> step_good c s mo (Cancel id).
+Proof.
+  intros HR. pose proof HR as [Ha Hf]. unfold step_good. cbn [step]. unfold do_cancel.
+  destruct (nth_error (s_ctxs s) id) as [x|] eqn:Hx.
+  - destruct (Forall2_nth _ _ _ _ _ Hf Hx) as (m & Hm & Hr).
+    cbn [p_step target]. rewrite Hm.
+    rewrite (mon_step_target c mo (Cancel id) _ id m eq_refl Hm).
+    destruct (step_base_stop c s mo id x m ECanceled (Cancel id) HR Hx Hm Hr ltac:(left; split; reflexivity)) as [Hp HR'].
+    split; [|exact HR'].
+    destruct Hp as [(er & dur & -> & Hp)|[-> Hp]]; exact Hp.
+  - pose proof (Forall2_nth_none _ _ _ _ Hf Hx) as Hm. cbn [p_step target fst snd]. rewrite Hm.
+    rewrite (mon_step_target_none c mo (Cancel id) _ id eq_refl Hm). split; [reflexivity|exact HR].
+Qed.
+
+Lemma step_expire c s mo id : R c s mo -> step_good c s mo (BaseExpire id).
+Proof.
+  intros HR. pose proof HR as [Ha Hf]. unfold step_good. cbn [step]. unfold do_expire.
+  destruct (nth_error (s_ctxs s) id) as [x|] eqn:Hx.
+  - destruct (Forall2_nth _ _ _ _ _ Hf Hx) as (m & Hm & Hr).
+    cbn [p_step target]. rewrite Hm.
+    rewrite (mon_step_target c mo (BaseExpire id) _ id m eq_refl Hm).
+    destruct (x_basedl x <=? s_now s) eqn:Een.
+    + destruct (step_base_stop c s mo id x m EDeadline (BaseExpire id) HR Hx Hm Hr
+                  ltac:(right; split; [reflexivity|split; [reflexivity|lia]])) as [Hp HR'].
+      split; [|exact HR'].
+      destruct Hp as [(er & dur & -> & Hp)|[-> Hp]]; exact Hp.
+    + (* not yet due: nothing happens, and the monitor agrees it is not due *)
+      destruct Hr as (H1 & H2 & H3 & H4 & H5 & H6 & H7 & H8 & Hrk & H9).
+      destruct Ha as (Ha1 & Ha2 & Ha3 & Ha4).
+      assert (Hno : (wall_bound c m <=? tl_now (mo_tl mo)) = false) by lia.
+      cbn [fst snd]. split.
+      * unfold p_quiet. rel_fields. unfold wall_bound in Hno. rewrite Hno, Bool.orb_false_r.
+        destruct (x_phase x) as [d'|dl|].
+        -- destruct H9 as (-> & -> & _). reflexivity.
+        -- destruct H9 as (Hpk & Hdn & He & _). destruct (H5 He) as [-> ->]. rewrite Hpk, Hdn. reflexivity.
+        -- rewrite (proj1 H9). reflexivity.
+      * apply (R_update_mon _ _ _ _ x); [exact HR|exact Hx|].
+        unfold ctx_rel. rel_fields. unfold wall_bound in Hno. rewrite Hno, Bool.orb_false_r. fin.
+  - pose proof (Forall2_nth_none _ _ _ _ Hf Hx) as Hm. cbn [p_step target fst snd]. rewrite Hm.
+    rewrite (mon_step_target_none c mo (BaseExpire id) _ id eq_refl Hm). split; [reflexivity|exact HR].
+Qed.
+
+Lemma Forall2_snoc {A B} (P : A -> B -> Prop) l1 l2 a b :
+  Forall2 P l1 l2 -> P a b -> Forall2 P (l1 ++ [a]) (l2 ++ [b]).
+Proof. intros H Hab. apply Forall2_app; [exact H|]. constructor; [exact Hab|constructor]. Qed.
+
+Lemma step_newctx c s mo d : R c s mo -> step_good c s mo (NewCtx d).
+Proof.
+  intros [Ha Hf]. unfold step_good. cbn [step]. unfold do_newctx. cbn [fst snd]. split.
+  - cbn [p_step]. rewrite !Z.eqb_refl. reflexivity.
+  - unfold mon_step. cbn [tl_step]. split.
+    + cbn [mo_tl]. eapply acct_clock_of; [|exact Ha]. reflexivity.
+    + cbn [set_ctxs s_now s_ctxs mo_ctxs]. apply Forall2_snoc; [exact Hf|].
+      destruct Ha as (Ha1 & Ha2 & Ha3 & Ha4).
+      unfold ctx_rel. rel_fields. cbn [b_T0 b_U0 b_d]. fin.
+Qed.
+
+Lemma step_other_frame c s e :
+  target e = None -> (forall d, e <> NewCtx d) ->
+  s_ctxs (fst (step c s e)) = s_ctxs s /\ s_now s <= s_now (fst (step c s e)).
+Proof.
+  assert (Hrefl : s_ctxs s = s_ctxs s /\ s_now s <= s_now s) by (split; [reflexivity|lia]).
+  intros Ht Hn. destruct e; try discriminate; cbn [step fst].
+  - split; [reflexivity|]. cbn [do_advance s_now]. lia.
+  - exact Hrefl.
+  - unfold do_resume. destruct (s_cnt s); exact Hrefl.
+  - exfalso. eapply Hn. reflexivity.
+  - unfold do_storage, do_resume, do_advance, do_suspend. cbn [s_cnt fst s_ctxs s_now]. split; [reflexivity|lia].
+  - exact Hrefl.
+  - unfold do_tarm. destruct (nth_error (s_tmrs s) id) as [t|]; [|exact Hrefl].
+    destruct (t_phase t); [|exact Hrefl..]. destruct (t_stopreq t); exact Hrefl.
+  - unfold do_tfire. destruct (nth_error (s_tmrs s) id) as [t|]; [|exact Hrefl].
+    destruct (t_phase t) as [d|dl|]; [exact Hrefl| |exact Hrefl].
+    destruct ((dl <=? tf) && (tf <=? s_now s)); [|exact Hrefl].
+    destruct (t_final t - total_at s tf <? thr c); exact Hrefl.
+  - unfold do_tmaxfire. destruct (nth_error (s_tmrs s) id) as [t|]; [|exact Hrefl].
+    destruct (t_phase t) as [d|dl|]; [exact Hrefl| |exact Hrefl].
+    destruct ((t_maxdl t <=? tf) && (tf <=? s_now s)); exact Hrefl.
+  - unfold do_tstop. destruct (nth_error (s_tmrs s) id) as [t|]; [|exact Hrefl].
+    destruct (t_open t); [|exact Hrefl]. destruct (t_phase t); exact Hrefl.
+Qed.
+
+Lemma tl_uns_mono t e : tl_uns t <= tl_uns (tl_step t e).
+Proof.
+  destruct e; cbn [tl_step tl_uns]; try lia. destruct (Nat.eqb (tl_cnt t) 0); lia.
+Qed.
+
+Lemma step_other c s mo e :
+  target e = None -> (forall d, e <> NewCtx d) -> R c s mo -> step_good c s mo e.
+Proof.
+  intros Ht Hn [Ha Hf]. unfold step_good. split.
+  - destruct e; try discriminate; try reflexivity.
+    + exfalso. eapply Hn. reflexivity.
+  - destruct (step_other_frame c s e Ht Hn) as [Hc Hnow].
+    assert (Hmon : mon_step c mo e (snd (step c s e)) = mkMon (tl_step (mo_tl mo) e) (mo_ctxs mo)).
+    { unfold mon_step. rewrite Ht. destruct e; try reflexivity. exfalso. eapply Hn. reflexivity. }
+    rewrite Hmon. split.
+    + cbn [mo_tl]. apply acct_step. exact Ha.
+    + rewrite Hc. cbn [mo_ctxs mo_tl]. eapply Forall2_impl; [|exact Hf].
+      intros a b. apply ctx_rel_mono; [exact Hnow|apply tl_uns_mono].
+Qed.
+
+Lemma step_ok c s mo e : R c s mo -> step_good c s mo e.
+Proof.
+  intros HR. destruct e.
+  - apply step_other; [reflexivity|discriminate|exact HR].
+  - apply step_other; [reflexivity|discriminate|exact HR].
+  - apply step_other; [reflexivity|discriminate|exact HR].
+  - apply step_newctx, HR.
+  - apply step_arm, HR.
+  - apply step_fire, HR.
+  - apply step_cancel, HR.
+  - apply step_expire, HR.
+  - apply step_other; [reflexivity|discriminate|exact HR].
+  - apply step_other; [reflexivity|discriminate|exact HR].
+  - apply step_other; [reflexivity|discriminate|exact HR].
+  - apply step_other; [reflexivity|discriminate|exact HR].
+  - apply step_other; [reflexivity|discriminate|exact HR].
+  - apply step_other; [reflexivity|discriminate|exact HR].
+Qed.
+
+Lemma trace_ok_from_R c evs : forall s mo, R c s mo -> trace_ok_from c mo (trace_from c s evs) = true.
+Proof.
+  induction evs as [|e r IH]; intros s mo HR; cbn [trace_from trace_ok_from]; [reflexivity|].
+  destruct (step_ok c s mo e HR) as [Hp HR']. rewrite Hp. cbn [String.eqb andb].
+  apply IH. exact HR'.
+Qed.
+
+Lemma monitor_accepts_model_lemma : forall c evs, trace_ok c (trace c evs) = true.
+Proof. intros c evs. apply trace_ok_from_R. apply R_init. Qed.
